@@ -97,7 +97,7 @@ def verus_pass(vacuity, seed_args=None, tag="", extracted=None):
         "clause_lines": sorted(set(f"{v[0]}|{v[1]}" for v in A.clause_at.values())),
         "fn_times": times, "prelude_assumptions": pre_cnt, "assumptions_outside_prelude": outside,
         "rules_applied": A.meta.get("rules_applied"), "dropped": A.meta.get("dropped"),
-        "lost_anchors": vxlib.check_anchors(A.meta), "unsafe_seen": A.meta.get("unsafe_seen"),
+        "lost_anchors": vxlib.check_anchors(A.meta), "unsafe_seen": A.meta.get("unsafe_seen"), "serde_attrs_differ": vxlib.serde_attrs_differ(A.meta),
         "smt_ms": ((res["json"] or {}).get("times-ms", {}).get("smt", {}) or {}).get("total"),
         "theorem_names": theorem_names(A),
         "no_output": (res["json"] is None),
@@ -294,6 +294,8 @@ def tree_differs(main):
         return "function new to the tree: " + new_fns[0]
     if main.get("lost_contracts"):
         return "function removed: " + main["lost_contracts"][0]
+    if main.get("serde_attrs_differ"):
+        return "serde attributes differ from the verified baseline: " + main["serde_attrs_differ"]
     bp = os.path.join(VERIF, "verus", "baseline_files.json")
     if os.path.exists(bp):
         for rel, h in json.load(open(bp)).items():
@@ -420,6 +422,8 @@ def check_property(pid, tier, seed):
             for fn in main["refused"]:
                 if sel == "*" or fn in sel:
                     undecided.append(f"function {fn} could not be verified ({'; '.join(main['refused'][fn])[:200]}): panic-freedom undecided")
+        if main.get("serde_attrs_differ") and P.get("needs_serde_premise"):
+            undecided.append("the premise 'derived serde impls are field-wise' is lost (serde attributes changed: " + main["serde_attrs_differ"][:200] + ")")
         for rl in main["rlimit"]:
             undecided.append("rlimit: " + rl[:300])
         if vac["hard"] and not main["hard"]:
